@@ -985,7 +985,7 @@ class bcrypt_sha256(_wrapped_bcrypt):
         r=(?P<rounds>[0-9]{1,2})
         [$](?P<salt>[^$]{22})
         (?:[$](?P<digest>[^$]{31}))?
-        $
+        \Z
         """)
 
     #: old version 1 hash format
@@ -996,7 +996,7 @@ class bcrypt_sha256(_wrapped_bcrypt):
         (?P<rounds>[0-9]{1,2})
         [$](?P<salt>[^$]{22})
         (?:[$](?P<digest>[^$]{31}))?
-        $
+        \Z
         """)
 
     @classmethod
